@@ -22,6 +22,19 @@ RT = "http://schemas.openxmlformats.org/officeDocument/2006/relationships/"
 MIME = {"png": "image/png", "jpeg": "image/jpeg", "jpg": "image/jpeg", "gif": "image/gif", "bmp": "image/bmp"}
 
 
+_MIME_ALIAS = {"png": "image/x-png", "jpeg": "image/jpg", "jpg": "image/pjpeg", "gif": "image/gif", "bmp": "image/x-ms-bmp"}
+
+
+def _image_ctypes(opts, media: dict) -> list[str]:
+    """[Content_Types].xml entries for the image parts.  opts["ct"]: None = a Default per known extension; "alias" = Defaults that use
+    other registered names of the same types; "override" = no image Defaults, one Override per media part (both are valid packages)."""
+    mode = (opts or {}).get("ct")
+    if mode == "override":
+        return [f'<Override PartName="/{name}" ContentType="{MIME.get(name.rsplit(".", 1)[-1], "application/octet-stream")}"/>' for name in sorted(media)]
+    table = _MIME_ALIAS if mode == "alias" else MIME
+    return [f'<Default Extension="{ext}" ContentType="{mt}"/>' for ext, mt in table.items()]
+
+
 def core_xml(props: dict) -> str:
     p = props or {}
     parts = []
@@ -219,8 +232,6 @@ def render_docx(doc, *, images=None, opts=None) -> bytes:
     body = "".join(_w_blocks(u["blocks"], st) for u in doc["units"])
     parts = {}
     ctypes = ['<Default Extension="rels" ContentType="application/vnd.openxmlformats-package.relationships+xml"/>', '<Default Extension="xml" ContentType="application/xml"/>']
-    for ext, mt in MIME.items():
-        ctypes.append(f'<Default Extension="{ext}" ContentType="{mt}"/>')
     over = ['<Override PartName="/word/document.xml" ContentType="application/vnd.openxmlformats-officedocument.wordprocessingml.document.main+xml"/>',
             '<Override PartName="/word/styles.xml" ContentType="application/vnd.openxmlformats-officedocument.wordprocessingml.styles+xml"/>',
             '<Override PartName="/docProps/core.xml" ContentType="application/vnd.openxmlformats-package.core-properties+xml"/>']
@@ -261,7 +272,7 @@ def render_docx(doc, *, images=None, opts=None) -> bytes:
     parts["_rels/.rels"] = _rels([("rId1", RT + "officeDocument", "word/document.xml", False),
                                   ("rId2", "http://schemas.openxmlformats.org/package/2006/relationships/metadata/core-properties", "docProps/core.xml", False)])
     parts.update(st.media)
-    ordered = {"[Content_Types].xml": f'<?xml version="1.0" encoding="UTF-8" standalone="yes"?><Types xmlns="{CT}">' + "".join(ctypes + over) + "</Types>"}
+    ordered = {"[Content_Types].xml": f'<?xml version="1.0" encoding="UTF-8" standalone="yes"?><Types xmlns="{CT}">' + "".join(ctypes + _image_ctypes(opts, st.media) + over) + "</Types>"}
     ordered.update(parts)
     return _zip(ordered)
 
@@ -388,8 +399,6 @@ def render_pptx(doc, *, images=None, opts=None) -> bytes:
     part_no = opts.get("slide_part_order") or (list(range(n, 0, -1)) if opts.get("permute_parts") else list(range(1, n + 1)))  # part number used by the i-th slide in reading order
     parts, media = {}, {}
     ctypes = ['<Default Extension="rels" ContentType="application/vnd.openxmlformats-package.relationships+xml"/>', '<Default Extension="xml" ContentType="application/xml"/>']
-    for ext, mt in MIME.items():
-        ctypes.append(f'<Default Extension="{ext}" ContentType="{mt}"/>')
     over = ['<Override PartName="/ppt/presentation.xml" ContentType="application/vnd.openxmlformats-officedocument.presentationml.presentation.main+xml"/>',
             '<Override PartName="/ppt/slideMasters/slideMaster1.xml" ContentType="application/vnd.openxmlformats-officedocument.presentationml.slideMaster+xml"/>',
             '<Override PartName="/ppt/slideLayouts/slideLayout1.xml" ContentType="application/vnd.openxmlformats-officedocument.presentationml.slideLayout+xml"/>',
@@ -465,7 +474,7 @@ def render_pptx(doc, *, images=None, opts=None) -> bytes:
     parts["_rels/.rels"] = _rels([("rId1", RT + "officeDocument", "ppt/presentation.xml", False),
                                   ("rId2", "http://schemas.openxmlformats.org/package/2006/relationships/metadata/core-properties", "docProps/core.xml", False)])
     parts.update(media)
-    ordered = {"[Content_Types].xml": f'<?xml version="1.0" encoding="UTF-8" standalone="yes"?><Types xmlns="{CT}">' + "".join(ctypes + over) + "</Types>"}
+    ordered = {"[Content_Types].xml": f'<?xml version="1.0" encoding="UTF-8" standalone="yes"?><Types xmlns="{CT}">' + "".join(ctypes + _image_ctypes(opts, media) + over) + "</Types>"}
     ordered.update(parts)
     return _zip(ordered)
 
